@@ -207,6 +207,8 @@ struct Sys {
       Error err = A.shrink(sp, ns);
       if (mode == 3) {
         if (err == Error::kOk) return fail(why, "shrink-grow-accepted", "shrink to a larger size succeeded");
+        // a refused call must leave the caller's span as it was (write() trusts span.size())
+        if (sp.size() != old || sp.rx() != l.span.rx() || sp.rw() != l.span.rw()) return fail(why, "shrink-refused-span-changed", "a refused shrink(" + std::to_string(ns) + ") changed the caller's span: size " + std::to_string(sp.size()) + " (was " + std::to_string(old) + ")");
         return check_all(why);
       }
       if (err != Error::kOk) return fail(why, "shrink-failed", "shrink(" + std::to_string(ns) + ") of a live span failed");
